@@ -237,6 +237,7 @@ def main(pid, tier, seed, replay=None):
             except build.BuildError as e:
                 raise Inconclusive('release build for replay failed: ' + str(e))
         unconfirmable = []
+        not_reproduced = []
         for v in violations:
             ok, detail = mod.confirm(run, v)
             if ok is None:
@@ -246,7 +247,8 @@ def main(pid, tier, seed, replay=None):
             if not ok:
                 run.log('[replay] counterexample did NOT reproduce on the real build:', json.dumps(v, default=str)[:600])
                 run.log('         native:', json.dumps(detail, default=str)[:600])
-                raise Inconclusive('a solver counterexample did not reproduce natively: the encoding or an oracle is wrong')
+                not_reproduced.append(v)
+                continue
             v['native'] = detail
             hit = None
             for k in known:
@@ -257,6 +259,11 @@ def main(pid, tier, seed, replay=None):
                     known_hits.append(hit)
             else:
                 confirmed.append(v)
+        if not_reproduced and not confirmed:
+            # nothing natively confirmed stands next to it: the encoding or an oracle is wrong somewhere, no verdict
+            raise Inconclusive('a solver counterexample did not reproduce natively: the encoding or an oracle is wrong')
+        for v in not_reproduced:
+            run.log('[replay] (not reported: did not reproduce natively, while other counterexamples of this run did) ' + str(v.get('what'))[:200])
         if unconfirmable and not confirmed and not known_hits:
             for v, d in unconfirmable[:3]:
                 run.log('[replay] no concrete instance found for:', str(v.get('what'))[:400], json.dumps(d, default=str)[:300])
